@@ -94,7 +94,7 @@ UNIT = VUnit(
                      Rw("R13", r"let mut evaluated_indices = Vec::with_capacity_in\(index_exprs\.len\(\), self\.frame\);", ""),
                      Rw("R11", r"for \(index_expr, index_span\) in &index_exprs \{.*?\n        \}", "fallible_step()?;"),
                      HAS, PROMOTE,
-                     Rw("R13", r"let mut slot = if let Some\(local\) = self\.bound_expr_local\(base_expr\) \{.*?\.expect\(\"Semantic analysis guarantees variable exists\"\);", ""),
+                     Rw("R9", r"let mut slot = if let Some\(local\) = self\.bound_expr_local\(base_expr\) \{.*?\.ok_or_else\([^;]*\)\?;", "fallible_step()?;"),
                      Rw("R11", r"for \(i, \(idx, index_span\)\) in evaluated_indices\.iter\(\)\.enumerate\(\) \{.*?\n        \}\n", "return store_at_indices(me.has_frame, value);\n")],
            vacuity="-", real_name="Runtime::assign_index (the stored element is promoted)"),
         Block("shout_output", within="eval_builtin_call", impl="impl Runtime",
